@@ -401,7 +401,7 @@ PROPERTIES = {
     },
     "C02": {
         "level": "proof",
-        "claim": "VM side of memory safety: every one of the 45 dispatch arms, sliced verbatim, is verified (Verus, unbounded) to read its operand bytes inside the code, to pop only what its precondition says is there, to index constants/locals/globals in range, and to move ip by exactly the operand width the compiler records; the unchecked helpers read_u8/read_u16/pop/next and OpCode::from meet those contracts on the real code (Kani). So the unchecked fast paths are safe for every bytecode that satisfies the arm preconditions. Compile side: every arm of the code generator, compile_block_statement / compile_block_value and the two generators as whole functions are verified against the generator contract (gen_post) AND against a static stack typing (ghost height, opcodes.rs): an expression leaves exactly one value, a statement none, a block used as a value exactly one, both branches of an if and the loop back edge / exit meet at equal heights, nothing falls out of the end of a function body; the per-opcode effects the typing uses are proved of all 42 machine arms (op_delta). O02.pop: at EVERY emission in the generator the static height covers what the opcode pops (precondition of emit_opcode; table op_needs = the stack preconditions of the machine arms, lemma_arm_needs_are_tabled): statically, no instruction pops an empty operand area.",
+        "claim": "VM side of memory safety: every one of the 45 dispatch arms, sliced verbatim, is verified (Verus, unbounded) to read its operand bytes inside the code, to pop only what its precondition says is there, to index constants/locals/globals in range, and to move ip by exactly the operand width the compiler records; the unchecked helpers read_u8/read_u16/pop/next and OpCode::from meet those contracts on the real code (Kani). So the unchecked fast paths are safe for every bytecode that satisfies the arm preconditions. Compile side: every arm of the code generator, compile_block_statement / compile_block_value and the two generators as whole functions are verified against the generator contract (gen_post) AND against a static stack typing (ghost height, opcodes.rs): an expression leaves exactly one value, a statement none, a block used as a value exactly one, both branches of an if and the loop back edge / exit meet at equal heights, nothing falls out of the end of a function body; the per-opcode effects the typing uses are proved of all 42 machine arms (op_delta). O02.pop: at EVERY emission in the generator the static height covers what the opcode pops (precondition of emit_opcode; table op_needs = the stack preconditions of the machine arms, lemma_arm_needs_are_tabled): statically, no instruction pops an empty operand area. O02.slot: every local-slot operand the generator emits inside a function body (GetLocal / SetLocal / fused instructions; ghost bound updated at the five emission sites) lies below the slot count stored in the function's descriptor - the number of slots the Call arm reserves - because the size a context reports covers every slot in use (ctx_sized, kept by every table function).",
         "note": "Trusted: Verus/Z3, Kani/CBMC, extraction rules. NOT decided: that consistent static heights imply the arm preconditions at every step of every run (soundness of the height typing against VM::run as a whole: needs a verified semantics of the dispatch loop); operand ranges of local slots at run time; the heights at stop / volgende jumps (known finding O11.h). The ghost joins (which jump lands where) are placed by the unit templates next to the patch calls; that a patch targets the position where the join is placed is proved by the layout contracts of the same arm (if_jumps, while_post).",
         "design_ref": "DESIGN.md 3.5",
         "undecided": ["static heights consistent => arm preconditions at every step (soundness of the typing; needs a semantics of VM::run)", "heights at stop / volgende jumps (known finding O11.h)", "induction over steps (step lemma) is an argument over the arm contracts, not a verified loop"],
